@@ -26,12 +26,14 @@ import (
 
 // pair is a two-client world with a number of ledger channels between them.
 type pair struct {
-	s     *world.Sim
-	w     *world.World
-	n     [2]*world.Node
-	chans [][2]*client.Channel // [k][side]
-	ids   []channel.ID
-	subs  []subInfo
+	craftedFunds map[client.ProposalID]bool // C08: crafted proposals that are invalid only because of the funds they ask for
+	eager        bool                       // C06: updates may start before the responder's Accept has returned
+	s            *world.Sim
+	w            *world.World
+	n            [2]*world.Node
+	chans        [][2]*client.Channel // [k][side]
+	ids          []channel.ID
+	subs         []subInfo
 	// agree[k] is the funding agreement the scenario intended for channel k
 	agree []channel.Balances
 	// watchSide says which sides run Channel.Watch on their channels
@@ -79,6 +81,9 @@ func newPair(s *world.Sim) *pair {
 	w := world.NewWorld(s, int(sc.Cfg("ser", 0)))
 	w.Bus.Fifo = sc.Cfg("fifo", 0) == 1
 	w.Bus.Async = sc.Cfg("async_bus", 0) == 1
+	if v := sc.Cfg("bus_ack_max_us", 0); v > 0 {
+		w.Bus.AckMax = time.Duration(v) * time.Microsecond
+	}
 	if v := sc.Cfg("bus_max_us", 0); v > 0 {
 		w.Bus.MaxDelay = time.Duration(v) * time.Microsecond
 		if v <= 100 {
@@ -244,6 +249,32 @@ func (p *pair) open(step int, side int, st *kernel.Step) int {
 		return -1
 	}
 	o.ch = ch.ID()
+	if p.eager {
+		// the proposer's controller is usable at once; the responder's is filled
+		// in when its Accept has returned
+		pairCh := [2]*client.Channel{}
+		pairCh[side] = ch
+		p.mu.Lock()
+		p.chans = append(p.chans, pairCh)
+		p.ids = append(p.ids, ch.ID())
+		if agreement == nil {
+			agreement = alloc.Balances.Clone()
+		}
+		p.agree = append(p.agree, agreement)
+		k := len(p.chans) - 1
+		p.mu.Unlock()
+		for i := 0; i < 20000; i++ {
+			if other := peer.Chan(ch.ID()); other != nil {
+				p.mu.Lock()
+				p.chans[k][1-side] = other
+				p.mu.Unlock()
+				return k
+			}
+			time.Sleep(100 * time.Microsecond)
+		}
+		p.s.Count("probe.peer_never_obtained_channel", 1)
+		return k
+	}
 	// wait for the peer's controller (Accept returns after funding)
 	var other *client.Channel
 	for i := 0; i < 2000 && other == nil; i++ {
